@@ -562,21 +562,30 @@ ExpectKey == open # <<>> /\ heap[open[Len(open)]].k = "m"
 
 KeyScalars == {<<"str", Mod.keys[i]>> : i \in DOMAIN Mod.keys} \cup Range(Mod.oddkeys)
 ValScalars == Range(Mod.scalars) \cup
-              {<<Mod.stags[i], Mod.scalars[1][2]>> : i \in DOMAIN Mod.stags}
+              {<<Mod.stags[i], Mod.scalars[j][2]>> :
+                  i \in DOMAIN Mod.stags, j \in {k \in DOMAIN Mod.scalars : k <= 2}}
 
 \* attach node id to the innermost open collection, or make it the root
 Attach(h, id) ==
     IF open = <<>> THEN h
     ELSE [h EXCEPT ![open[Len(open)]].c = Append(@, id)]
 
-NodeBound == IF MaxNodes > 0 THEN MaxNodes ELSE IF Tier = "q" THEN Mod.qn ELSE Mod.tn
+NodeBound == IF MaxNodes > 0 THEN MaxNodes ELSE IF AllowAlias THEN Mod.an
+             ELSE IF Tier = "q" THEN Mod.qn ELSE Mod.tn
 CanAdd == phase = "compose" /\ Occurrences < NodeBound /\ (open # <<>> \/ root = 0)
                             /\ ~(open = <<>> /\ Len(heap) > 0)
 
+\* per-model restrictions of the generator (catalogue): kind of the root,
+\* distinct keys, which kinds may be aliased, cycles
+RootOk(kind) == open # <<>> \/ Mod.rootk = "" \/ Mod.rootk = kind
+KeysOfTop == {heap[heap[open[Len(open)]].c[i]].v :
+                 i \in {j \in DOMAIN heap[open[Len(open)]].c : j % 2 = 1}}
+
 ComposeScalar ==
-    /\ CanAdd
+    /\ CanAdd /\ RootOk("s")
     /\ \E sc \in (IF ExpectKey THEN KeyScalars ELSE ValScalars) :
          LET id == NewId(heap) IN
+         /\ (ExpectKey /\ Mod.nodup) => sc[2] \notin KeysOfTop
          /\ heap' = Attach(Append(heap, Node("s", sc[1], sc[2], <<>>)), id)
          /\ root' = IF open = <<>> THEN id ELSE root
     /\ UNCHANGED <<mi, dt, doc0, open, nalias, phase, stack, ret, log, res, visited, shared>>
@@ -586,6 +595,7 @@ ComposeOpen ==
     /\ \E kt \in {<<"q", Mod.qtags[i]>> : i \in DOMAIN Mod.qtags} \cup
                  {<<"m", Mod.mtags[i]>> : i \in DOMAIN Mod.mtags} :
          LET id == NewId(heap) IN
+         /\ RootOk(kt[1])
          /\ heap' = Attach(Append(heap, Node(kt[1], kt[2], "", <<>>)), id)
          /\ root' = IF open = <<>> THEN id ELSE root
          /\ open' = Append(open, id)
@@ -598,10 +608,15 @@ ComposeClose ==
     /\ UNCHANGED <<mi, dt, heap, root, doc0, nalias, phase, stack, ret, log, res, visited, shared>>
 
 ComposeAlias ==
-    /\ AllowAlias /\ CanAdd /\ open # <<>> /\ ~ExpectKey
+    \* an alias may also stand in key position: `&a {*a : 1}` is a cycle
+    \* through a mapping key
+    /\ AllowAlias /\ CanAdd /\ open # <<>> /\ (~ExpectKey \/ (AllowCycles /\ Mod.cyc))
     /\ \E id \in DOMAIN heap :
-         /\ AllowCycles \/ id \notin Range(open)
-         \* an anchor on a key node is possible but adds nothing: value nodes only
+         /\ (AllowCycles /\ Mod.cyc) \/ id \notin Range(open)
+         /\ heap[id].k \in Range(Mod.aliask)
+         \* in key position only collections are aliased (scalar keys come from
+         \* the key alphabet)
+         /\ ExpectKey => heap[id].k # "s"
          /\ heap' = Attach(heap, id)
     /\ nalias' = nalias + 1
     /\ UNCHANGED <<mi, dt, root, doc0, open, phase, stack, ret, log, res, visited, shared>>
